@@ -87,3 +87,97 @@ def c01_row(h):
         except ZeroDivisionError as e:
             return {"reproduced": True, "call": "%s %r at %r" % (which, h["unit"], x), "observed": "ZeroDivisionError", "expected": "a number"}
     return {"reproduced": False, "tried": len(xs)}
+
+
+@probe("c16_fix")
+def c16_fix(h):
+    from barril.units.unit_database import FixUnitIfIsLegacy
+
+    r = FixUnitIfIsLegacy(h["s"])
+    ok = list(r) == list(h["expect"])
+    return {"reproduced": not ok, "call": "FixUnitIfIsLegacy(%r)" % h["s"], "observed": list(r), "expected": h["expect"]}
+
+
+@probe("c16_entry")
+def c16_entry(h):
+    db = fresh_db(h["filler"])
+    l, u = h["legacy"], h["unit"]
+    qt = db.unit_to_unit_info[u].quantity_type
+    a, b = db.GetDefaultCategory(l), db.GetDefaultCategory(u)
+    if a != b:
+        return {"reproduced": True, "call": "GetDefaultCategory(%r) vs (%r)" % (l, u), "observed": a, "expected": b}
+    try:
+        i = db.GetInfo(qt, l)
+        if i.unit != u:
+            return {"reproduced": True, "call": "GetInfo(%r,%r).unit" % (qt, l), "observed": i.unit, "expected": u}
+        base = db.GetBaseUnit(qt)
+        x, y = db.Convert(qt, l, base, 2.5), db.Convert(qt, u, base, 2.5)
+        if x != y:
+            return {"reproduced": True, "call": "Convert(%r,%r,%r,2.5)" % (qt, l, base), "observed": x, "expected": y}
+    except Exception as e:
+        return {"reproduced": True, "call": "GetInfo/Convert with legacy %r" % l, "observed": repr(e), "expected": "same as %r" % u}
+    return {"reproduced": False}
+
+
+@probe("c19_defcat")
+def c19_defcat(h):
+    db = fresh_db(h["filler"])
+    u = h["unit"]
+    c = db.GetDefaultCategory(u)
+    qt = db.unit_to_unit_info[u].quantity_type
+    ok = c in db.categories_to_quantity_types and db.categories_to_quantity_types[c].quantity_type == qt
+    if h["filler"] == "posc_nocat":
+        ok = ok or c is None
+    return {"reproduced": not ok, "call": "GetDefaultCategory(%r)" % u, "observed": c, "expected": "a registered category of quantity type %r" % qt}
+
+
+@probe("filler_builds")
+def filler_builds(h):
+    try:
+        fresh_db(h["filler"])
+    except Exception as e:
+        return {"reproduced": True, "call": "filler %s" % h["filler"], "observed": repr(e)[:500], "expected": "the filler completes"}
+    return {"reproduced": False}
+
+
+@probe("c14_wf")
+def c14_wf(h):
+    db = fresh_db(h["filler"])
+    k = h["kind"]
+    U, Q, C = db.unit_to_unit_info, db.quantity_types, db.categories_to_quantity_types
+    if k == "unit":
+        u = h["unit"]
+        i = U[u]
+        ok = i.unit == u and any(x is i for x in Q.get(i.quantity_type, []))
+        return {"reproduced": not ok, "call": "unit_to_unit_info[%r]" % u, "observed": [i.unit, i.quantity_type], "expected": "listed under its own symbol in its quantity type"}
+    if k in ("qt", "base"):
+        qt = h["qt"]
+        rows = Q[qt]
+        syms = [r.unit for r in rows]
+        ok = len(rows) > 0 and len(set(syms)) == len(syms) and all(U.get(r.unit) is r and r.quantity_type == qt for r in rows)
+        if ok:
+            b = rows[0]
+            for x in (0.0, 1.0, -3.5, 1e6):
+                if b.tobase(x) != x or b.frombase(x) != x:
+                    return {"reproduced": True, "call": "quantity_types[%r][0] = %r on %r" % (qt, b.unit, x), "observed": [b.tobase(x), b.frombase(x)], "expected": "identity"}
+        return {"reproduced": not ok, "call": "quantity_types[%r]" % qt, "observed": syms[:6], "expected": "non-empty, duplicate-free, registered"}
+    if k == "cat":
+        c = h["cat"]
+        ci = C[c]
+        us = [r.unit for r in Q.get(ci.quantity_type, [])]
+        ok = ci.quantity_type in Q and ci.default_unit in us and (ci.valid_units is None or all(v in us for v in ci.valid_units)) and ci.valid_units_set == set(ci.valid_units or [])
+        if ok:
+            try:
+                from barril.units import Scalar
+                from barril.units.unit_database import UnitDatabase
+
+                UnitDatabase.PushSingleton(db)
+                try:
+                    s = Scalar(c)
+                    ok = s.IsValid()
+                finally:
+                    UnitDatabase.PopSingleton()
+            except Exception as e:
+                return {"reproduced": True, "call": "Scalar(%r)" % c, "observed": repr(e), "expected": "constructs"}
+        return {"reproduced": not ok, "call": "categories[%r]" % c, "observed": [ci.quantity_type, ci.default_unit, ci.valid_units], "expected": "W3"}
+    return {"reproduced": False}
